@@ -202,6 +202,19 @@ def descent(ctx):
     yf = [y for y in walk_func(pf) if isinstance(y, ast.YieldFrom) and P.matches(y.value, "self.extract_nodes($a)")]
     ok = len(yf) == 1 and P.matches(resolve_deep(pf, yf[0].value.args[0], 5), "lexer.Lexer(%s.read(), input_encoding=self.config['encoding']).parse().get_children()" % pn(pf, 1))
     ctx.check(ok, "entry", db.where(pf), "process_file does not lex the whole file with the configured encoding", "lexes the file and scans all top-level nodes")
+    # the extractor's configuration (its encoding is the codec the code fragments are written in for the Python extractor, which is
+    # told about the options only) is fixed when the extractor is set up: the shared machinery never changes it
+    writers = []
+    for q_, f_ in db.functions_in("ext.extract"):
+        for n_ in walk_func(f_):
+            tgt = None
+            if isinstance(n_, (ast.Subscript, ast.Attribute)) and isinstance(n_.ctx, (ast.Store, ast.Del)):
+                tgt = n_.value if isinstance(n_, ast.Subscript) else n_
+            elif isinstance(n_, ast.Call) and isinstance(n_.func, ast.Attribute) and n_.func.attr in ("update", "setdefault", "pop", "clear", "__setitem__"):
+                tgt = n_.func.value
+            if tgt is not None and src(tgt).endswith(".config"):
+                writers.append(n_)
+    ctx.check(not writers, "config-fixed", db.where(writers[0]) if writers else db.where(pf), "the extractor's configuration is changed while a file is processed (%s): code fragments are then encoded with a codec the Python extractor was not configured with" % (src(writers[0]) if writers else ""), "configuration only read in ext/extract.py")
 
 
 @rule("C20.offset-algebra", min_instances=4)
